@@ -1155,6 +1155,54 @@ v("C11", "handler-invoked-twice", "httpgrpc/server.go",
 			err = desc.Handler(svr, str)
 		}""", "R2", "handler-once", "fallback runs the handler a second time after an interceptor error")
 
+# ------------------------------------------------------------------ C15
+v("C15", "store-before-dup-check", "server.go",
+  """	if _, ok := m[desc.ServiceName]; ok {
+		panic(fmt.Sprintf("service %s: handler already registered", desc.ServiceName))
+	}
+	m[desc.ServiceName] = service{desc: desc, handler: h}""", """	old, ok := m[desc.ServiceName]
+	m[desc.ServiceName] = service{desc: desc, handler: h}
+	if ok && old.handler != h {
+		panic(fmt.Sprintf("service %s: handler already registered", desc.ServiceName))
+	}""", "R1", "exclusive", "refused duplicate registration has already replaced the earlier one")
+v("C15", "no-type-check-for-nil-handlertype", "server.go",
+  """	if !st.Implements(ht) {
+		panic(""", """	if ht.NumMethod() > 0 && !st.Implements(ht) && st.Kind() != reflect.Ptr {
+		panic(""", "R1", "refusal-panics", "ill-typed pointer handlers are accepted")
+v("C15", "getserviceinfo-skips-streamless", "server.go",
+  """	for _, svc := range m {
+		methods := make([]grpc.MethodInfo, 0, len(svc.desc.Methods)+len(svc.desc.Streams))""", """	for _, svc := range m {
+		if len(svc.desc.Methods) == 0 {
+			continue
+		}
+		methods := make([]grpc.MethodInfo, 0, len(svc.desc.Methods)+len(svc.desc.Streams))""", "R2", "GetServiceInfo:unfiltered", "stream-only services missing from reflection info")
+v("C15", "stream-flags-swapped", "server.go",
+  """				IsClientStream: mtd.ClientStreams,
+				IsServerStream: mtd.ServerStreams,""", """				IsClientStream: mtd.ServerStreams,
+				IsServerStream: mtd.ClientStreams,""", "R3", "stream-entry", "streaming flags crossed in service info")
+v("C15", "metadata-dropped", "server.go",
+  """			Methods:  methods,
+			Metadata: svc.desc.Metadata,""", """			Methods:  methods,""", "R3", "service-entry", "file metadata missing: reflection cannot find the proto file")
+v("C15", "foreach-first-only", "server.go",
+  """	for _, svc := range m {
+		fn(svc.desc, svc.handler)
+	}""", """	for _, svc := range m {
+		fn(svc.desc, svc.handler)
+		if len(m) > 8 {
+			break
+		}
+	}""", "R2", "ForEach:unfiltered", "iteration stops early for large registries")
+v("C15", "server-mounts-before-registry", "httpgrpc/server.go",
+  """func (s *Server) RegisterService(desc *grpc.ServiceDesc, svr interface{}) {
+	s.handlers.RegisterService(desc, svr)
+	for i := range desc.Methods {""", """func (s *Server) RegisterService(desc *grpc.ServiceDesc, svr interface{}) {
+	defer s.handlers.RegisterService(desc, svr)
+	for i := range desc.Methods {""", "R4", "delegates", "handlers mounted before the registry could refuse")
+v("C15", "queryservice-wrong-key", "server.go",
+  "	svc := m[name]\n	return svc.desc, svc.handler", "	svc := m[strings.TrimSpace(name)]\n	return svc.desc, svc.handler", "R2", "QueryService", "lookup key normalised differently from the registration key", edits=[
+   {"file": "server.go", "old": "	svc := m[name]\n	return svc.desc, svc.handler", "new": "	svc := m[strings.TrimSpace(name)]\n	return svc.desc, svc.handler"},
+   {"file": "server.go", "old": '	"reflect"\n', "new": '	"reflect"\n	"strings"\n'}])
+
 
 def main():
     if os.path.isdir(OUT):
